@@ -298,7 +298,7 @@ namespace AIToolbox::POMDP {
                 const auto & b = node.belief;
                 const auto domIt = findBestDeltaDominated(b, it->values, delta_, std::begin(lbVList), end, unwrap);
 
-                if (it != domIt) {
+                if (domIt != end) {
                     rmWit(bId, *it);
                     addWit(bId, *domIt);
                 }
